@@ -3,6 +3,8 @@ import ZCV.Lemmas.Datatypes2Total
 import ZCV.Lemmas.Datatypes2Split
 import ZCV.Lemmas.Datatypes2Octet
 import ZCV.Lemmas.Datatypes2V6
+import ZCV.Lemmas.Timedelta
+import ZCV.Lemmas.Inet6Text
 /-!
 # C09 — every standard datatype is a total function honouring its documented contract
 
@@ -13,8 +15,11 @@ suffix tables *generated from the source* — computes exactly the documented co
 The second half (from `C09_ipaddrOrHostname_spec` on) covers the remaining stock datatypes: `ipaddr-or-hostname`
 (live pattern with `rx.match` + "consumed everything", then `inet_pton`), `integer` and `float` (grammars of what
 Python's `int`/`float` accept, `DTSpec.IntLit` / `DTSpec.FloatLit`), `string-list` (`DTSpec.Words`), totality of the
-whole stock table and idempotence of the key types.  `timedelta`, `locale` and the four `existing-*` datatypes are
-not modelled by `stockVal` (see `C09_unmodelled`); nothing is claimed about them here.
+whole stock table and idempotence of the key types.  `locale` and the four `existing-*` datatypes are not modelled
+(see `C09_unmodelled`); nothing is claimed about them here.  `timedelta` has its own model (`DT.timedelta`,
+`ZCV/Model/Timedelta.lean`, not yet wired into `stockVal`) and contract (`DTSpec.IsTimedelta`): section "timedelta".
+The last section replaces the algorithmic definition of "valid IPv6 address" (`DT.pton6`, glibc's `inet_pton`) by the
+declarative RFC 4291 §2.2 text grammar `DTSpec.Inet6Text`.
 -/
 namespace ZCV.Props.C09
 open ZCV
@@ -268,7 +273,7 @@ theorem C09_unmodelled :
 
 /-- Totality: for every stock datatype name other than the six the model does not implement, and every string, the
     conversion returns a value or raises `ValueError` — never any other exception.  (`TypeError` can only come from
-    `timedelta`, which is not modelled.) -/
+    `timedelta`, which `stockVal` does not implement yet; for its own model see `C09_timedelta_total`.) -/
 theorem C09_total (dt : Str) (h : dt ∈ Gen.stockNames)
     (hm : dt ∉ ["locale".toList, "existing-directory".toList, "existing-path".toList, "existing-file".toList,
        "existing-dirpath".toList, "timedelta".toList]) (s : Str) :
@@ -301,5 +306,194 @@ theorem C09_keytypes_all (kt : Str)
 example : Cfg.stockKey "basic-key".toList "Ab-C".toList = .ok "ab-c".toList := by
   show DT.basicKey _ = _
   rw [DT.basicKey_eq_spec]; decide
+
+/-! ## timedelta -/
+
+/-- `timedelta` computes exactly its contract, for every string and every outcome: the text is cut into
+    whitespace-separated words (`str.split()`); if every word is a float literal followed by one of the unit letters
+    `w d h m s` (lower case only), `datetime.timedelta` is called with, for each unit, the amount of the LAST word
+    carrying that letter (`0` if none); otherwise the first ill-formed word decides — `ValueError` if it is not a float
+    literal followed by one more character, `TypeError` if that character is not a unit letter.
+    (The value is symbolic; what the `datetime.timedelta` constructor then does with the numbers — it refuses NaN,
+    infinities and more than 999999999 days, all reported as `ValueError` — is `DT.timedeltaChecked`'s parameter.) -/
+theorem C09_timedelta_spec (s : Str) (r : Except ConvErr DT.TimedeltaVal) :
+    DT.timedelta s = r ↔ DTSpec.IsTimedelta s r :=
+  DT.td_timedelta_spec s r
+
+/-- Acceptance, spelled out: `timedelta` gets as far as building the value `v` exactly when the text is a sequence of
+    whitespace-separated `<float-literal><unit>` parts, and `v` holds the last amount given for each unit. -/
+theorem C09_timedelta_accepts (s : Str) (v : DT.TimedeltaVal) :
+    DT.timedelta s = .ok v ↔
+      ∃ parts : List DTSpec.TdPart, DTSpec.Words s (parts.map DTSpec.tdText) ∧ (∀ p ∈ parts, DTSpec.TdGood p) ∧
+        v = DTSpec.tdValue parts := by
+  rw [C09_timedelta_spec]
+  constructor
+  · intro h
+    cases h with
+    | ok parts hw hp => exact ⟨parts, hw, hp, rfl⟩
+  · rintro ⟨parts, hw, hp, rfl⟩
+    exact DTSpec.IsTimedelta.ok parts hw hp
+
+/-- `timedelta` is the one standard datatype that reports a malformed value as `TypeError`: this happens exactly
+    when the first word that is not a well-formed part is a float literal followed by a character that is not one of
+    `w d h m s` (an upper-case `W`, a digit as in `12`, …). -/
+theorem C09_timedelta_unknown_unit_is_TypeError (s : Str) :
+    DT.timedelta s = .error .typeError ↔
+      ∃ (good : List DTSpec.TdPart) (lit : Str) (u : Char) (rest : List Str),
+        DTSpec.Words s (good.map DTSpec.tdText ++ (lit ++ [u]) :: rest) ∧ (∀ p ∈ good, DTSpec.TdGood p) ∧
+        DTSpec.FloatLit lit ∧ u ∉ DTSpec.tdUnits := by
+  rw [C09_timedelta_spec]
+  constructor
+  · intro h
+    cases h with
+    | badUnit good lit u rest hw hp h1 h2 => exact ⟨good, lit, u, rest, hw, hp, h1, h2⟩
+  · rintro ⟨good, lit, u, rest, hw, hp, h1, h2⟩
+    exact DTSpec.IsTimedelta.badUnit good lit u rest hw hp h1 h2
+
+/-- …and the loop over the parts ends in `ValueError` exactly when the first word that is not a well-formed part is
+    not even a float literal followed by one character (`w`, `1`, `1.5.2s`, `1e5`, …). -/
+theorem C09_timedelta_bad_amount_is_ValueError (s : Str) :
+    DT.timedelta s = .error .valueError ↔
+      ∃ (good : List DTSpec.TdPart) (w : Str) (rest : List Str),
+        DTSpec.Words s (good.map DTSpec.tdText ++ w :: rest) ∧ (∀ p ∈ good, DTSpec.TdGood p) ∧
+        ¬ ∃ lit u, w = lit ++ [u] ∧ DTSpec.FloatLit lit := by
+  rw [C09_timedelta_spec]
+  constructor
+  · intro h
+    cases h with
+    | badAmount good w rest hw hp hb => exact ⟨good, w, rest, hw, hp, hb⟩
+  · rintro ⟨good, w, rest, hw, hp, hb⟩
+    exact DTSpec.IsTimedelta.badAmount good w rest hw hp hb
+
+/-- A single part, readable form: a float literal followed by a unit letter is accepted, the same literal followed by
+    any other (non-blank) character is a `TypeError`. -/
+theorem C09_timedelta_single (lit : Str) (u : Char) (hl : DTSpec.FloatLit lit) (hn : DTSpec.NoSpace (lit ++ [u])) :
+    (u ∈ DTSpec.tdUnits → DT.timedelta (lit ++ [u]) = .ok (DTSpec.tdValue [(lit, u)])) ∧
+    (u ∉ DTSpec.tdUnits → DT.timedelta (lit ++ [u]) = .error .typeError) := by
+  have hw : DTSpec.Words (lit ++ [u]) [lit ++ [u]] := by
+    have := DTSpec.Words.word [] (lit ++ [u]) [] [] (fun c hc => by cases hc) (by simp) hn (Or.inl rfl)
+      (DTSpec.Words.nil [] (fun c hc => by cases hc))
+    simpa using this
+  constructor
+  · intro hu
+    exact (C09_timedelta_accepts _ _).mpr ⟨[(lit, u)], hw, fun p hp => by
+      rw [List.mem_singleton] at hp; subst hp; exact ⟨hl, hu⟩, rfl⟩
+  · intro hu
+    exact (C09_timedelta_unknown_unit_is_TypeError _).mpr ⟨[], lit, u, [], hw, (fun p hp => by cases hp), hl, hu⟩
+
+/-- Totality: `timedelta` builds its value, or raises `ValueError`, or raises `TypeError`; nothing else (in particular
+    the `IndexError` of `part[-1]` on an empty part cannot happen: `float('')` has already failed). -/
+theorem C09_timedelta_total (s : Str) :
+    (∃ v, DT.timedelta s = .ok v) ∨ DT.timedelta s = .error .valueError ∨ DT.timedelta s = .error .typeError :=
+  DT.td_isTimedelta_total s _ ((C09_timedelta_spec s _).mp rfl)
+
+/-- …and this stays true for the whole function, whatever the numeric verdict `fits` of the `datetime.timedelta`
+    constructor: since the fix that turns its `OverflowError` into `ValueError`, an out-of-range, infinite or NaN amount
+    is one more `ValueError`. -/
+theorem C09_timedelta_checked_total (fits : DT.TimedeltaVal → Bool) (s : Str) :
+    (∃ v, DT.timedeltaChecked fits s = .ok v ∧ DT.timedelta s = .ok v ∧ fits v = true) ∨
+    DT.timedeltaChecked fits s = .error .valueError ∨ DT.timedeltaChecked fits s = .error .typeError := by
+  unfold DT.timedeltaChecked
+  rcases C09_timedelta_total s with ⟨v, h⟩ | h | h
+  · rw [h]
+    cases hf : fits v with
+    | true => exact Or.inl ⟨v, by simp [hf], rfl, hf⟩
+    | false => exact Or.inr (Or.inl (by simp [hf]))
+  · rw [h]; exact Or.inr (Or.inl rfl)
+  · rw [h]; exact Or.inr (Or.inr rfl)
+
+/-- The amounts are never added up: with two parts for the same unit the later one wins. -/
+theorem C09_timedelta_last_wins (u : Char) (l1 l2 : Str) (ps : List DTSpec.TdPart)
+    (h : ∀ p ∈ ps, p.2 ≠ u) : DTSpec.tdAmount u ((l1, u) :: (l2, u) :: ps) = some l2 := by
+  rw [DT.td_amount_cons, DT.td_amount_cons]
+  have : DTSpec.tdAmount u ps = none := by
+    unfold DTSpec.tdAmount
+    rw [Option.map_eq_none_iff, List.find?_eq_none]
+    intro p hp
+    simpa using h p (List.mem_reverse.mp hp)
+  simp [this]
+
+example : DT.timedelta "4w 2.5d 7h 12m 0.001s".toList =
+    .ok { weeks := some "4".toList, days := some "2.5".toList, hours := some "7".toList,
+          minutes := some "12".toList, seconds := some "0.001".toList } := by decide
+example : DT.timedelta " \t-1e3s\n+.5w  infd ".toList =
+    .ok { weeks := some "+.5".toList, days := some "inf".toList, seconds := some "-1e3".toList } := by decide
+example : DT.timedelta "1w 2w".toList = .ok { weeks := some "2".toList } := by decide
+example : DT.timedelta [] = .ok {} := by decide
+example : DT.timedelta "1W".toList = .error .typeError := by decide
+example : DT.timedelta "12".toList = .error .typeError := by decide
+example : DT.timedelta "1".toList = .error .valueError := by decide
+example : DT.timedelta "w".toList = .error .valueError := by decide
+example : DT.timedelta "1 w".toList = .error .valueError := by decide
+example : DT.timedelta "1x 2".toList = .error .typeError := by decide
+example : DT.timedelta "2 1x".toList = .error .valueError := by decide
+example : DTSpec.IsTimedelta "1W".toList (.error .typeError) := (C09_timedelta_spec _ _).mp (by decide)
+
+/-! ## IPv6 address text: the algorithm is the RFC 4291 grammar -/
+
+/-- glibc's `inet_pton(AF_INET6, ·)` — the definition of "valid IPv6 address" used by `ipaddr-or-hostname` — accepts
+    exactly the texts of RFC 4291 §2.2: eight groups of one to four hexadecimal digits separated by single colons; or,
+    with one `::` standing for at least one group of zeros, at most seven groups in all (the `::` may be leading,
+    trailing, or the whole text); where the last two groups may be written as a dotted quad of canonical decimal
+    numbers 0..255.  For every string. -/
+theorem C09_inet6_spec (s : Str) : DT.pton6 s = true ↔ DTSpec.Inet6Text s := DT.v6_pton6_iff s
+
+/-- The embedded IPv4 tail (glibc's `inet_pton4`): exactly four fields separated by periods, each made of ASCII digits
+    without a leading zero and denoting at most 255. -/
+theorem C09_inet4_tail_spec (s : Str) : DT.pton4 s = true ↔ DTSpec.V4Text s := DT.v6_pton4_iff s
+
+/-- Such a field has one to three digits. -/
+theorem C09_inet4_field_length (o : Str) (h : DTSpec.DecOctet o) : 1 ≤ o.length ∧ o.length ≤ 3 :=
+  ⟨List.length_pos_iff.mpr h.1, DT.v6_decOctet_length o h⟩
+
+/-- `ipaddr-or-hostname`, with the IPv6 side stated by the grammar: it accepts exactly dotted-quad IPv4 addresses, host
+    names and RFC 4291 IPv6 texts, lower-casing them … -/
+theorem C09_ipaddrOrHostname_grammar (s r : Str) :
+    DT.ipaddrOrHostname s = .ok r ↔
+      r = lower s ∧ (DTSpec.isDottedQuad s = true ∨ DTSpec.isHostname s = true ∨ DTSpec.Inet6Text s) := by
+  rw [C09_ipaddrOrHostname_exact, C09_inet6_spec]
+
+/-- … and raises `ValueError` on every other string. -/
+theorem C09_ipaddrOrHostname_grammar_reject (s : Str) :
+    DT.ipaddrOrHostname s = .error .valueError ↔
+      ¬ (DTSpec.isDottedQuad s = true ∨ DTSpec.isHostname s = true ∨ DTSpec.Inet6Text s) := by
+  rw [C09_ipaddrOrHostname_reject, C09_inet6_spec]
+
+/-- The uncompressed form: any eight hex groups joined by colons are an address. -/
+theorem C09_inet6_eight_groups (gs : List Str) (hl : gs.length = 8) (h : ∀ g ∈ gs, DTSpec.HexGroup g) :
+    DT.pton6 (DTSpec.joinColon gs) = true :=
+  (C09_inet6_spec _).mpr (Or.inl ⟨gs, ⟨gs, h, Or.inl ⟨rfl, hl.symm⟩⟩, rfl⟩)
+
+/-- The compressed form: hex groups, `::`, hex groups — at most seven groups in all — are an address. -/
+theorem C09_inet6_compressed (ls rs : List Str) (hl : ls.length + rs.length ≤ 7)
+    (h1 : ∀ g ∈ ls, DTSpec.HexGroup g) (h2 : ∀ g ∈ rs, DTSpec.HexGroup g) :
+    DT.pton6 (DTSpec.joinColon ls ++ ':' :: ':' :: DTSpec.joinColon rs) = true :=
+  (C09_inet6_spec _).mpr (Or.inr ⟨ls, rs, rs.length, h1, ⟨rs, h2, Or.inl ⟨rfl, rfl⟩⟩, hl, rfl⟩)
+
+example : DTSpec.Inet6Text "::".toList := (C09_inet6_spec _).mp (by decide)
+example : DTSpec.Inet6Text "1::".toList := (C09_inet6_spec _).mp (by decide)
+example : DTSpec.Inet6Text "::1.2.3.4".toList := (C09_inet6_spec _).mp (by decide)
+example : DTSpec.Inet6Text "fe80::AbCd:1".toList := (C09_inet6_spec _).mp (by decide)
+example : DTSpec.Inet6Text "1:2:3:4:5:6:7:8".toList := (C09_inet6_spec _).mp (by decide)
+example : DTSpec.Inet6Text "1:2:3:4:5:6:7::".toList := (C09_inet6_spec _).mp (by decide)
+example : DTSpec.Inet6Text "1:2:3:4:5:6:255.0.10.199".toList := (C09_inet6_spec _).mp (by decide)
+example : ¬ DTSpec.Inet6Text "1:2:3:4:5:6:7::8".toList := fun h => absurd ((C09_inet6_spec _).mpr h) (by decide)
+example : ¬ DTSpec.Inet6Text "::01.2.3.4".toList := fun h => absurd ((C09_inet6_spec _).mpr h) (by decide)
+example : ¬ DTSpec.Inet6Text "::1.2.3.256".toList := fun h => absurd ((C09_inet6_spec _).mpr h) (by decide)
+example : ¬ DTSpec.Inet6Text "12345::".toList := fun h => absurd ((C09_inet6_spec _).mpr h) (by decide)
+example : ¬ DTSpec.Inet6Text "1::2::3".toList := fun h => absurd ((C09_inet6_spec _).mpr h) (by decide)
+example : ¬ DTSpec.Inet6Text ":::".toList := fun h => absurd ((C09_inet6_spec _).mpr h) (by decide)
+example : ¬ DTSpec.Inet6Text "1:".toList := fun h => absurd ((C09_inet6_spec _).mpr h) (by decide)
+example : ¬ DTSpec.Inet6Text ":1".toList := fun h => absurd ((C09_inet6_spec _).mpr h) (by decide)
+example : ¬ DTSpec.Inet6Text "1.2.3.4".toList := fun h => absurd ((C09_inet6_spec _).mpr h) (by decide)
+example : ¬ DTSpec.Inet6Text "1:2:3:4:5:6:7:1.2.3.4".toList := fun h => absurd ((C09_inet6_spec _).mpr h) (by decide)
+/-- the grammar is inhabited directly, too (no detour through the algorithm) -/
+example : DTSpec.Inet6Text "::".toList :=
+  Or.inr ⟨[], [], 0, DT.v6_nil_all, ⟨[], DT.v6_nil_all, Or.inl ⟨rfl, rfl⟩⟩, by decide, rfl⟩
+example : DTSpec.Inet6Text "1::2".toList := by
+  have hg : ∀ d : Str, d = "1".toList ∨ d = "2".toList → DTSpec.HexGroup d := by
+    rintro d (rfl | rfl) <;> exact ⟨by decide, by decide, by decide⟩
+  exact Or.inr ⟨["1".toList], ["2".toList], 1, fun g h => hg g (Or.inl (List.mem_singleton.mp h)),
+    ⟨["2".toList], fun g h => hg g (Or.inr (List.mem_singleton.mp h)), Or.inl ⟨rfl, rfl⟩⟩, by decide, rfl⟩
 
 end ZCV.Props.C09
